@@ -23,6 +23,7 @@
 # This file contains types and functions which help build ANSI escape code strings
 
 import re
+import sys
 import math
 from typing import Any, Union, List, Dict, Tuple
 from .ansi_param import AnsiParam, AnsiParamEffect, EFFECT_CLEAR_DICT
@@ -687,6 +688,10 @@ class AnsiString:
             (start, end) values where accompanying formats should be applied
         '''
         extend_formatting = True
+        width_match = re.search(r'([0-9]+)\Z', string_format)
+        if width_match and int(width_match.group(1)) > sys.maxsize:
+            # Same as str: report this as a format error rather than letting an OverflowError escape later
+            raise ValueError('Too many decimal digits in format string')
         # Note: re.DOTALL lets any character, also a newline, be the fill character; \Z (unlike $) does not tolerate
         # a trailing newline
         match = re.search(r'^(?:(.?)([+-]?)<)?([0-9]*)\Z', string_format, re.DOTALL)
